@@ -167,6 +167,22 @@ pub fn check(c: &Case, cs: &mut CaseStats) -> Result<(), String> {
     Ok(())
 }
 
+/// The oracle used by the coverage-guided target `fz_tess`: as `check`, without the brute-force
+/// reference of C01 (three perturbed replicas per cell dominate the cost of a tiny case and
+/// throughput is what a fuzzer lives on). Crashes are re-checked with the full oracle by replay.
+pub fn check_fuzz(c: &Case, cs: &mut CaseStats) -> Result<(), String> {
+    if !gen::is_valid(c) {
+        return Err("INFRA: invalid case".into());
+    }
+    total_and_finite(c, cs)?;
+    if c.mask.is_none() {
+        sub_oracle("C02", super::c02::check, c, cs)?;
+    }
+    sub_oracle("C03", super::c03::check, c, cs)?;
+    sub_oracle("C04", super::c04::check, c, cs)?;
+    Ok(())
+}
+
 pub fn def() -> PropDef {
     PropDef {
         id: "C05",
